@@ -191,12 +191,19 @@ example : [x4Mk (x4S [0x41]) (x4S [0xE9]) (x4S [0x41, 0x42]), x4Mk (x4S [0x41, 0
 
 /-! ## the excluded point: A_UNICODE2STRING with an odd MAX-LENGTH
     `x4OddMax`: MIN-LENGTH 2, MAX-LENGTH 5, TERMINATION ZERO.  The value "AB" (4 bytes < 5) is written with the terminator `00 00`
-    (6 bytes in all).  The model's decoder (like `MinMaxLengthType.decode_from_pdu`) looks for the terminator within MAX-LENGTH bytes
-    only; here the model shows what happens. -/
+    (6 bytes in all); the decoder looks for the terminator within MAX-LENGTH bytes only, reads 5 bytes and fails.  The real code does
+    the same (`MinMaxLengthType.encode_into_pdu` → `00 41 00 42 00 00`, `decode_from_pdu` → `DecodeError: Cannot decode 0x0041004200 as
+    a string using the encoding 'utf-16-be'`): the KNOWN finding `minmax-unicode2-odd-max-length` (DESIGN.md, found at C01) — it is a
+    violation of C04 as well (an accepted value that strict decode does not give back). -/
 def x4OddMax : MMStrShape := { name := "u2", bytePos := none, bt := .unicode2, hl := true, minLen := 2, maxLen := some 5, term := .zero }
 def x4OddPs : List Param := [(x4OddMax.leaf [] []).toParam, (pu8 "tail").param]
 def x4OddV : PVal := .dict [("u2", x4S [0x41, 0x42]), ("tail", .atom (.int 0x99))]
 
 theorem x4OddMax_not_ok : ¬ x4OddMax.okMid := by decide
+
+/-- the model at the excluded point: the encoder accepts, the strict decoder fails on the PDU -/
+theorem C04_minmax_unicode2_odd_max_counterexample :
+    (encodeMessage none x4OddPs x4OddV none true).toOption = some ([0, 0x41, 0, 0x42, 0, 0, 0x99], 0) ∧
+    (decodeMessage none x4OddPs [0, 0x41, 0, 0x42, 0, 0, 0x99] true).toOption = none := by decide +kernel
 
 end OdxVerif.Codec
